@@ -192,6 +192,10 @@ def stepLine (s : DSt) (line : String) : DSt × String :=
   | ["t", "quiet"] =>
     let acc := s.acc.filter quietOk
     ({ s with acc := acc }, accStr acc)
+  | ["t", "seed", _, _] => (s, accStr s.acc)
+  | ["t", "down"] =>
+    let acc := s.acc.filter downOk
+    ({ s with acc := acc }, accStr acc)
   | ["t", "final"] =>
     let acc := s.acc.filter finalOk
     ({ s with acc := acc }, accStr acc)
